@@ -777,7 +777,7 @@ void UtilContext::copy_cpu_info(CpuList *cpu_info)
 const char *UtilContext::get_hex(const char *token, uint32_t *num)
 {
   int s = 0;
-  int n = 0;
+  uint32_t n = 0;
 
   while (token[s] != 0 && token[s] != ' ' && token[s] != '-' && token[s] != 'h')
   {
